@@ -38,6 +38,7 @@ type Universe struct {
 	bindingErrs []string
 	cg          *callGraph
 	knownFailing map[string]bool
+	writesCache  map[*FuncInfo]map[string]bool
 }
 
 var repoPkgs = []string{
